@@ -23,6 +23,8 @@ EVIDENCE = os.path.join(ROOT, "evidence")
 
 ALLOWED_AXIOMS = {"propext", "Classical.choice", "Quot.sound"}
 
+TSAN_ENV = {"TSAN_OPTIONS": "exitcode=66:halt_on_error=0:report_signal_unsafe=0"}
+
 SAN_ENV = {
     "ASAN_OPTIONS": "exitcode=99:detect_leaks=0:allocator_may_return_null=0:hard_rss_limit_mb=6000:abort_on_error=0",
     "UBSAN_OPTIONS": "exitcode=98:halt_on_error=1:print_stacktrace=0",
@@ -250,7 +252,7 @@ def _crash_kind(rc, err):
     return "EXIT%d" % rc
 
 
-def run_harness(hdir, cases, timeout=300, exe="harness", wrapper=None, env_extra=None):
+def run_harness(hdir, cases, timeout=300, exe="harness", wrapper=None, env_extra=None, args=None):
     """Run the implementation harness; a crash or timeout is attributed to its case and the run
     continues with the next case.  Returns (outputs per case, crash count)."""
     res = [None] * len(cases)
@@ -262,7 +264,7 @@ def run_harness(hdir, cases, timeout=300, exe="harness", wrapper=None, env_extra
         env.update(env_extra)
     while start < len(cases):
         sub = cases[start:]
-        cmd = [os.path.join(hdir, exe)]
+        cmd = [os.path.join(hdir, exe)] + list(args or [])
         if wrapper:
             cmd = wrapper + cmd
         try:
